@@ -74,7 +74,16 @@ def main():
         meta["demo_patched_output"] = out[-600:]
         meta["ran"].append("patched: python demo.py -> exit %d" % rc)
         if tests:
-            rc, out, dt = sh([PY, "-m", "pytest", "-q", "-p", "no:cacheprovider", "-n", "6", "Tests"], cwd=wt, env=env)
+            rc, out, dt = sh([PY, "-m", "pytest", "-q", "-rf", "-p", "no:cacheprovider", "-n", "6", "Tests"], cwd=wt, env=env)
+            failed = [l.strip() for l in out.splitlines() if l.startswith("FAILED ")]
+            if failed:  # retry the failing tests alone: under heavy machine load some tests are flaky
+                ids = [l.split()[1] for l in failed]
+                rc2, out2, _ = sh([PY, "-m", "pytest", "-q", "-p", "no:cacheprovider"] + ids, cwd=wt, env=env)
+                meta["tests_failed_first_pass"] = failed
+                meta["tests_failed_retry_exit"] = rc2
+                if rc2 == 0:
+                    rc = 0
+                    out += "\n(retry of %d failing tests passed) %d passed" % (len(ids), len(ids))
             tail = [l for l in out.splitlines() if re.search(r"\d+ passed|failed|error", l)][-1:] or [out[-200:]]
             meta["tests_exit"] = rc
             meta["tests_summary"] = tail[0].strip()
